@@ -68,6 +68,69 @@ def r18_1(ctx):
            'func(c, ...) is reachable only after the handshake completed')
 
 
+class _Mac:
+    """One keyed-digest computation as seen from a challenge function: directly (hmac.new(key, msg, alg)) or through a
+    module-level helper whose body is such a computation (one level)."""
+
+    def __init__(self, node, call, key, msg, alg, whole_key, gives_bytes, how):
+        self.node, self.call, self.key, self.msg, self.alg = node, call, key, msg, alg
+        self.whole_key, self.gives_bytes, self.how = whole_key, gives_bytes, how
+
+
+def _primitive(fi, c):
+    """(key expr, msg expr, algorithm text) if c is a keyed-digest primitive"""
+    cal = fi.callee(c)
+    if cal in ('hmac.new', 'hmac.HMAC', 'hmac.digest'):
+        kw = {k.arg: k.value for k in c.keywords}
+        key = c.args[0] if c.args else kw.get('key')
+        msg = c.args[1] if len(c.args) > 1 else kw.get('msg')
+        alg = c.args[2] if len(c.args) > 2 else kw.get('digestmod', kw.get('digest'))
+        return key, msg, 'hmac/' + (ast.unparse(alg) if alg is not None else '?')
+    if cal.split('.')[-1] in ('blake2b', 'blake2s'):
+        kw = {k.arg: k.value for k in c.keywords}
+        if 'key' in kw:
+            return kw['key'], (c.args[0] if c.args else kw.get('data')), cal.split('.')[-1]
+    return None
+
+
+def _mac_sites(m, fi):
+    out = []
+    for (n, c) in q.calls(fi, None):
+        p = _primitive(fi, c)
+        if p is not None and p[0] is not None and p[1] is not None:
+            # bytes iff the enclosing expression takes .digest() of it (hmac.digest returns bytes itself)
+            out.append(_Mac(n, c, p[0], p[1], p[2], True, None, 'direct'))
+            continue
+        g = m.resolve_func(fi.callee(c), fi.module) if '.' not in fi.callee(c) else None
+        if g is None or g is fi:
+            continue
+        inner = [(x, _primitive(g, x)) for x in walk_own(g.node) if isinstance(x, ast.Call)]
+        inner = [(x, p_) for (x, p_) in inner if p_ is not None and p_[0] is not None and p_[1] is not None]
+        if len(inner) != 1:
+            continue
+        x, (k, msg, alg) = inner[0]
+        P = g.positional_params()
+        actual = {}
+        for i, a in enumerate(c.args):
+            if i < len(P):
+                actual[P[i]] = a
+        for kw_ in c.keywords:
+            if kw_.arg:
+                actual[kw_.arg] = kw_.value
+        whole = isinstance(k, ast.Name) and k.id in actual and g.assigned_names().get(k.id, 0) == 0
+        key_names = [y.id for y in ast.walk(k) if isinstance(y, ast.Name) and y.id in actual]
+        msg_ok = isinstance(msg, ast.Name) and msg.id in actual and g.assigned_names().get(msg.id, 0) == 0
+        rets = [r for r in walk_own(g.node) if isinstance(r, ast.Return) and r.value is not None]
+        gives = bool(rets) and all(any(y is x for y in ast.walk(r.value)) and
+                                   (ast.unparse(r.value).endswith('.digest()') or g.callee(x) == 'hmac.digest')
+                                   for r in rets)
+        if not key_names or not msg_ok:
+            continue
+        out.append(_Mac(n, c, actual[key_names[0]], actual[msg.id], alg, whole, gives,
+                        'via %s(): key reaches the primitive as `%s`' % (g.name, ast.unparse(k))))
+    return out
+
+
 def r18_2(ctx):
     ctx.rule('R18.2', 'fresh challenge per call from os.urandom, digest = HMAC(key, that challenge), welcome only when '
                       'the response equals the digest (else failure + AuthenticationError); the answerer strips exactly '
@@ -79,11 +142,16 @@ def r18_2(ctx):
     conn, key = dc.positional_params()[:2]
     ctx.ob('R18.2', 'deliver_challenge:takes-connection-and-key-only', len(dc.params) == 2, dc, None,
            'no parameter can carry a precomputed challenge: %s' % dc.params)
-    hm = [(n, c) for (n, c) in q.calls(dc, 'hmac.new')]
-    q.need(hm, 'deliver_challenge computes no HMAC')
-    msg = hm[0][1].args[1] if len(hm[0][1].args) > 1 else None
-    ok = isinstance(msg, ast.Name) and ast.unparse(hm[0][1].args[0]) == key
-    ctx.ob('R18.2', 'deliver_challenge:digest-keyed-with-authkey', ok, dc, hm[0][1], ast.unparse(hm[0][1]))
+    macs = _mac_sites(m, dc)
+    q.need(macs, 'deliver_challenge computes no keyed digest (hmac.new / keyed hash, directly or through a helper)')
+    M1 = macs[0]
+    hm = [(M1.node, M1.call)]
+    msg = M1.msg
+    ok = isinstance(msg, ast.Name) and ast.unparse(M1.key) == key and M1.whole_key
+    ctx.ob('R18.2', 'deliver_challenge:digest-keyed-with-authkey', ok, dc, M1.call,
+           '%s (%s)' % (ast.unparse(M1.call), M1.how) if ok else
+           'the digest is not keyed with the whole key: %s (%s) -- keys that differ only in the part that is dropped '
+           'authenticate each other' % (ast.unparse(M1.call), M1.how))
     mname = msg.id if isinstance(msg, ast.Name) else '?'
     defs = [(dn, v) for (dn, t, v) in q.assigns(dc, mname)]
     ml = mi.consts.get('MESSAGE_LENGTH')
@@ -103,8 +171,9 @@ def r18_2(ctx):
            'connection.send_bytes(CHALLENGE + %s)' % mname)
     dig = [(dn, v) for (dn, t, v) in q.assigns(dc, None) if v is not None and any(x is hm[0][1] for x in ast.walk(v))]
     dname = ast.unparse(dig[0][0].ast.targets[0]) if dig else '?'
-    ok = bool(dig) and ast.unparse(dig[0][1]).endswith('.digest()')
-    ctx.ob('R18.2', 'deliver_challenge:digest-bytes', ok, dc, None, '%s = hmac.new(...).digest()' % dname)
+    ok = bool(dig) and (ast.unparse(dig[0][1]).endswith('.digest()') if M1.gives_bytes is None else
+                        (M1.gives_bytes and dig[0][1] is M1.call))
+    ctx.ob('R18.2', 'deliver_challenge:digest-bytes', ok, dc, None, '%s = <keyed digest>.digest()' % dname)
     rv = [(n, c) for (n, c) in q.calls(dc, conn + '.recv_bytes')]
     rname = ast.unparse(rv[0][0].ast.targets[0]) if rv and isinstance(rv[0][0].ast, ast.Assign) else '?'
     eq = (q.eq_text(rname, dname), 'hmac.compare_digest(%s, %s)' % (rname, dname), 'hmac.compare_digest(%s, %s)' % (dname, rname))
@@ -126,15 +195,18 @@ def r18_2(ctx):
     ac = m.func('connection:answer_challenge')
     cfg2 = ac.cfg
     conn2, key2 = ac.positional_params()[:2]
-    hm2 = [(n, c) for (n, c) in q.calls(ac, 'hmac.new')]
-    q.need(hm2, 'answer_challenge computes no HMAC')
-    a1, a2 = hm[0][1], hm2[0][1]
-    alg1 = ast.unparse(a1.args[2]) if len(a1.args) > 2 else str([ast.unparse(k.value) for k in a1.keywords])
-    alg2 = ast.unparse(a2.args[2]) if len(a2.args) > 2 else str([ast.unparse(k.value) for k in a2.keywords])
-    ok = ast.unparse(a2.args[0]) == key2 and alg1 == alg2 and len(a1.args) == len(a2.args)
+    macs2 = _mac_sites(m, ac)
+    q.need(macs2, 'answer_challenge computes no keyed digest')
+    M2 = macs2[0]
+    hm2 = [(M2.node, M2.call)]
+    a1, a2 = M1.call, M2.call
+    alg1, alg2 = M1.alg, M2.alg
+    ok = ast.unparse(M2.key) == key2 and M2.whole_key and alg1 == alg2 and \
+        (M1.how == 'direct') == (M2.how == 'direct') and \
+        (M1.how == 'direct' or ac.callee(a2) == dc.callee(a1))
     ctx.ob('R18.2', 'answer_challenge:same-key-and-algorithm-structure', ok, ac, a2,
-           'deliverer hmac.new(%s, <challenge>, %s) / answerer %s' % (key, alg1, ast.unparse(a2)))
-    m2 = a2.args[1]
+           'deliverer %s over (%s, <challenge>) / answerer %s (%s)' % (alg1, key, ast.unparse(a2), M2.how))
+    m2 = M2.msg
     m2n = m2.id if isinstance(m2, ast.Name) else '?'
     mdefs = [(dn, v) for (dn, t, v) in q.assigns(ac, m2n)]
     strip = [(dn, v) for (dn, v) in mdefs if ast.unparse(v).replace(' ', '') == '%s[len(CHALLENGE):]' % m2n]
@@ -267,7 +339,23 @@ MUTANTS = [
      "    if authkey is not None:\n        answer_challenge(c, authkey)\n        deliver_challenge(c, authkey)\n\n    if authkey is not None and not isinstance(authkey, bytes):\n        raise TypeError('authkey should be a byte string')\n", 'R18.4'),
     ('key-pickles-anywhere', 'billiard/process.py', "        if get_spawning_popen() is None:\n            raise TypeError(\n                'Pickling an AuthenticationString object is '\n                'disallowed for security reasons')\n", "", 'R18.5'),
 ]
+_BOTH_OLD = ("def deliver_challenge(connection, authkey):\n    import hmac\n    assert isinstance(authkey, bytes)\n    message = os.urandom(MESSAGE_LENGTH)\n    connection.send_bytes(CHALLENGE + message)\n    digest = hmac.new(authkey, message, 'md5').digest()\n    response = connection.recv_bytes(256)        # reject large message\n    if response == digest:\n        connection.send_bytes(WELCOME)\n    else:\n        connection.send_bytes(FAILURE)\n        raise AuthenticationError('digest received was wrong')\n\n\ndef answer_challenge(connection, authkey):\n    import hmac\n    assert isinstance(authkey, bytes)\n    message = connection.recv_bytes(256)         # reject large message\n    assert message[:len(CHALLENGE)] == CHALLENGE, 'message = %r' % message\n    message = message[len(CHALLENGE):]\n    digest = hmac.new(authkey, message, 'md5').digest()\n")
+
+
+def _both_new(helper_body):
+    return ("def _digest(authkey, message):\n" + helper_body +
+            "\n\ndef deliver_challenge(connection, authkey):\n    assert isinstance(authkey, bytes)\n    message = os.urandom(MESSAGE_LENGTH)\n    connection.send_bytes(CHALLENGE + message)\n    digest = _digest(authkey, message)\n    response = connection.recv_bytes(256)        # reject large message\n    if response == digest:\n        connection.send_bytes(WELCOME)\n    else:\n        connection.send_bytes(FAILURE)\n        raise AuthenticationError('digest received was wrong')\n\n\ndef answer_challenge(connection, authkey):\n    assert isinstance(authkey, bytes)\n    message = connection.recv_bytes(256)         # reject large message\n    assert message[:len(CHALLENGE)] == CHALLENGE, 'message = %r' % message\n    message = message[len(CHALLENGE):]\n    digest = _digest(authkey, message)\n")
+
+
+MUTANTS += [
+    ('helper-truncates-the-key', _C, _BOTH_OLD,
+     _both_new("    import hmac\n    return hmac.new(authkey[:64], message, 'md5').digest()\n"), 'R18.2'),
+    ('helper-keyed-hash-with-sliced-key', _C, _BOTH_OLD,
+     _both_new("    from hashlib import blake2b\n    return blake2b(message, key=authkey[:blake2b.MAX_KEY_SIZE], digest_size=16).digest()\n"), 'R18.2'),
+]
+
 TWINS = [
+    ('digest-through-a-helper', _C, _BOTH_OLD, _both_new("    import hmac\n    return hmac.new(authkey, message, 'md5').digest()\n")),
     ('compare-digest', _C, "    if response == digest:\n        connection.send_bytes(WELCOME)", "    if hmac.compare_digest(response, digest):\n        connection.send_bytes(WELCOME)"),
     ('verdict-flipped', _C, "    if response != WELCOME:\n        raise AuthenticationError('digest sent was rejected')", "    if WELCOME != response:\n        raise AuthenticationError('digest sent was rejected')"),
     ('accept-key-is-not-none', _C, "        if self._authkey:\n            deliver_challenge(c, self._authkey)", "        if self._authkey is not None:\n            deliver_challenge(c, self._authkey)"),
